@@ -2,6 +2,8 @@
 Export of textX based models and metamodels to dot file.
 """
 
+import os
+from contextlib import contextmanager, suppress
 from dataclasses import dataclass
 from typing import Dict, Iterable, List, Union
 from typing import Optional as Opt
@@ -298,8 +300,26 @@ set namespaceSeparator .
         return f"{base.fqn} <|-- {special.fqn}\n"
 
 
+@contextmanager
+def _atomic_output(file_name):
+    """
+    Opens a temporary file beside `file_name` for writing and moves it over
+    `file_name` when everything is written. On failure nothing is left behind
+    and an existing `file_name` keeps its content.
+    """
+    tmp_name = f"{file_name}.tmp{os.getpid()}"
+    try:
+        with open(tmp_name, "w", encoding="utf-8") as f:
+            yield f
+        os.replace(tmp_name, file_name)
+    except BaseException:
+        with suppress(OSError):
+            os.remove(tmp_name)
+        raise
+
+
 def metamodel_export(metamodel, file_name, renderer=None):
-    with open(file_name, "w", encoding="utf-8") as f:
+    with _atomic_output(file_name) as f:
         metamodel_export_tofile(metamodel, f, renderer)
 
 
@@ -406,7 +426,7 @@ def model_export(model, file_name, repo=None):
     Returns:
         Nothing
     """
-    with open(file_name, "w", encoding="utf-8") as f:
+    with _atomic_output(file_name) as f:
         model_export_to_file(f, model, repo)
 
 
